@@ -95,8 +95,10 @@ def renderWorld (w : World) (names groups : List String) : String :=
   let sts := w.actors.filterMap fun a =>
     if a.phase = .fresh then none
     else
-      let kids := sortNats (a.kids.getD [])
-      some s!"{a.id}:{statusStr a.status}/{match a.sup with | some p => toString p | none => "-"}/{showNats kids}"
+      let kids := match a.kids with
+        | some l => showNats (sortNats l)
+        | none => "x"      -- closed by a `terminate()`
+      some s!"{a.id}:{statusStr a.status}/{match a.sup with | some p => toString p | none => "-"}/{kids}"
   let run := w.actors.filterMap fun a => if a.phase.isTask && a.woken then some (toString a.id) else none
   let sts := if sts.isEmpty then "-" else " ".intercalate sts
   let run := if run.isEmpty then "-" else ",".intercalate run
@@ -314,6 +316,7 @@ structure ObsActor where
   status : Status
   sup : Option Nat
   kids : List Nat
+  kidsClosed : Bool := false
 
 /-- Status field `a:St/sup/kids …` of the observation. -/
 def parseStatuses (field : String) : List ObsActor :=
@@ -324,7 +327,7 @@ def parseStatuses (field : String) : List ObsActor :=
       | [st, sup, kids] => do
         let a ← a.toNat?
         let st ← statusOf? st
-        pure { id := a, status := st, sup := sup.toNat?, kids := (natList? kids).getD [] }
+        pure { id := a, status := st, sup := sup.toNat?, kids := (natList? kids).getD [], kidsClosed := kids == "x" }
       | _ => none
     | _ => none
 
@@ -497,7 +500,7 @@ def step (which : Prop3) (st : St) (opLine impl : String) : St × StepOut :=
         match prevObs.find? (·.id == a), prevObs.find? (·.id == p), obs.find? (·.id == a) with
         | some oa, some op', some na =>
           if oa.status.rank < Status.draining.rank && op'.status.rank < Status.draining.rank
-              && !st.treeKilled.contains p && a != p && na.sup != some p
+              && !op'.kidsClosed && a != p && na.sup != some p
           then fails ++ ["c04.link-ignored"] else fails
         | _, _, _ => fails
       | .c04, .unlink a p =>
